@@ -500,7 +500,9 @@ func (m *Machine) intrinsic(s *State, f *Frame, x *ssa.Call, name string, callee
 		et := x.Type().(*types.Pointer).Elem()
 		f.env[x] = Ptr{obj: s.alloc(m.zero(et))}
 		return nil, true
-	case strings.HasSuffix(name, ").ReturnToVTPool") || strings.HasSuffix(name, ").ResetVT"):
+	case strings.HasSuffix(name, ").ReturnToVTPool") || strings.HasSuffix(name, ").ResetVT") ||
+		(strings.HasSuffix(name, ").Reset") && strings.HasPrefix(name, "(*github.com/oxia-db/oxia/proto.")):
+		// generated protobuf Reset(): the message becomes the zero message
 		if p, ok := args[0].(Ptr); ok && p.obj != 0 {
 			if pt, ok := callee.Signature.Recv().Type().(*types.Pointer); ok {
 				s.store(p, m.zero(pt.Elem()))
